@@ -250,6 +250,16 @@ def q_line(q):
         return f"set_fixed_gain {f2b(q['G'])}"
     if o == 'twin':
         return None             # another object is built and used: the model's object is not concerned
+    if o == 'reuse':
+        # the same frequency array handed over twice, overwritten in place in between: two array queries for the model
+        m = q['meth']
+        if m == 'sens':
+            return [f"sensv {fl(q['fs'])}", f"sensv {fl(q['fs2'])}"]
+        if m == 'sf':
+            return [f"sfv {f2b(q['L'])} {f2b(q['A'])} {fl(q['fs'])}", f"sfv {f2b(q['L'])} {f2b(q['A'])} {fl(q['fs2'])}"]
+        if m == 'db':
+            return ['dbv ' + ','.join(f'{f2b(f)}:{f2b(v)}' for f, v in zip(fr, q['vs'])) for fr in (q['fs'], q['fs2'])]
+        return []               # get_gain / get_attenuation on arrays: no model command, oracle only
     raise ValueError(o)
 
 
@@ -290,6 +300,92 @@ def twin_of(k):
         k2 = {'c': 'flat', 'S': 3.0, 'G': 0.0}
     k2.pop('mutate_inputs', None)
     return k2
+
+
+def _reuse_call(cal, q, k=None):
+    """the array method of a `reuse` query, as a function of the caller's frequency (and voltage) buffers"""
+    m, L, A = q['meth'], q.get('L', 60.0), q.get('A', 0.0)
+    if m == 'sens':
+        return lambda f, v: cal.get_sens(f)
+    if m == 'sf':
+        return lambda f, v: cal.get_sf(f, L, A)
+    if m == 'db':
+        get_db = cal.get_spl if q.get('spl') and (k is None or has_spl(k)) else cal.get_db
+        return lambda f, v: get_db(f, v)
+    if m == 'gain':
+        return lambda f, v: cal.get_gain(f, L, A)
+    if m == 'att':
+        return lambda f, v: cal.get_attenuation(f, v, L)
+    raise ValueError(m)
+
+
+def _overwrite(q, fbuf):
+    """the caller re-uses its frequency buffer: new contents written in place (shape and dtype unchanged)"""
+    if q['how'] == 'scale':
+        fbuf *= q['factor']
+    else:
+        fbuf[:] = q['fs2']
+    if fbuf.tolist() != [float(x) for x in q['fs2']]:
+        raise AssertionError('harness: buffer contents are not fs2')
+
+
+def run_reuse(cal, q, k=None):
+    """[first answer, answer after the caller overwrote its buffer in place] (model lines: see q_line)"""
+    from psiaudio.calibration import CalibrationError
+    call = _reuse_call(cal, q, k)
+    fbuf, vbuf = np.array(q['fs'], dtype=float), np.array(q['vs'], dtype=float)
+    out = []
+    for step in (0, 1):
+        if step:
+            _overwrite(q, fbuf)
+        try:
+            r = call(fbuf, vbuf)
+            out.append(vals(r, atol=DB_ATOL if q['meth'] != 'sf' else 0.0))
+        except CalibrationError:
+            out.append(err('CalibrationError'))
+        except ValueError:
+            out.append(err('ValueError'))
+    return out if q['meth'] in ('sens', 'sf', 'db') else []
+
+
+def law_reuse(cal, k, q):
+    """hardening item 6 (histories): ONE frequency array handed to the same method of the same object twice, its contents
+    overwritten in place by the caller in between (same shape; values may leave the calibrated range) and nothing else
+    asked in between: the second answer is the answer for the new contents, frequency by frequency what the scalar form
+    says (NaN / CalibrationError included); the array returned first is left alone"""
+    call = _reuse_call(cal, q, k)
+    name = {'sens': 'get_sens', 'sf': 'get_sf', 'db': 'get_db', 'gain': 'get_gain', 'att': 'get_attenuation'}[q['meth']]
+    fbuf, vbuf = np.array(q['fs'], dtype=float), np.array(q['vs'], dtype=float)
+    from psiaudio.calibration import CalibrationError
+    try:
+        obj1 = call(fbuf, vbuf)                 # what the first call handed back, as the caller holds it
+        keep1 = np.array(obj1, dtype=float, copy=True)
+        r1 = keep1.tolist()
+    except (CalibrationError, ValueError) as e:
+        obj1, keep1, r1 = None, None, type(e).__name__
+    _overwrite(q, fbuf)
+    r2 = _try(lambda: call(fbuf, vbuf))
+    if obj1 is not None and not np.array_equal(np.asarray(obj1, dtype=float), keep1, equal_nan=True):
+        return (f'{name}: the array returned for {q["fs"]!r} changed when the caller overwrote its frequency buffer '
+                f'afterwards: {keep1.tolist()!r} -> {np.asarray(obj1, dtype=float).tolist()!r}')
+    one = [_try(lambda: call(f, v)) for f, v in zip(q['fs2'], q['vs'])]
+    errs = [x for x in one if isinstance(x, str) and x != 'nan']
+    what = (f'{name} asked twice with the same frequency array, first holding {q["fs"]!r}, then overwritten in place '
+            f'({q["how"]}) with {q["fs2"]!r}')
+    if errs:
+        if not (isinstance(r2, str) and r2 == errs[0]):
+            return f'{what}: the scalar form raises {errs[0]} for the new contents, the second call returned {r2!r}'
+        return None
+    if isinstance(r2, str) or np.size(r2) != len(one):
+        return f'{what}: second call gave {r2!r}, the scalar form on the new contents {one!r}'
+    tol = 1e-12 if q['meth'] == 'sf' else None
+    for f, a, b in zip(q['fs2'], one, np.asarray(r2, dtype=float).ravel()):
+        if a == 'nan':
+            if not math.isnan(b):
+                return f'{what}: {f!r} Hz is outside the calibrated range (scalar form NaN), the second call gives {float(b)!r}'
+        elif not abs(b - a) <= (DB_TOL if tol is None else tol * abs(a)):
+            return f'{what}: at {f!r} Hz the second call gives {float(b)!r}, the scalar form {a!r} (first answer was {r1!r})'
+    return None
 
 
 def run_query(cal, q, k=None):
@@ -533,6 +629,10 @@ def check_laws(k, queries):
         elif o in ('sensv', 'sfv', 'dbv'):
             # array (list, tuple, integer / float32 / 2-D / strided array, Series, DataFrame) = scalar, point by point
             f = law_array(cal, k, q)
+            if f:
+                return f
+        elif o == 'reuse':
+            f = law_reuse(cal, k, q)
             if f:
                 return f
         elif o == 'meansf':
@@ -801,7 +901,7 @@ def gen_queries(rng, k, nq):
     G0 = k.get('G', 0.0)
     while len(qs) < nq:
         o = rng.choice(['sens', 'sf', 'sf', 'db', 'db', 'att', 'gain', 'meansf', 'sensv', 'sfv', 'dbv',
-                        'set_fixed_gain', 'sensitivity', 'twin', 'again', 'regain']
+                        'set_fixed_gain', 'sensitivity', 'twin', 'again', 'regain', 'reuse']
                        + (['tomvpa'] * 2 if is_flat(k) else []))
         L = rng.choice([rnd(rng, -20, 120), float(rng.randint(-20, 120)), 0.0])
         A = rng.choice([0.0, 0.0, 20.0, rnd(rng, 0, 120), float(rng.randint(-40, 120)), -6.0])
@@ -848,6 +948,21 @@ def gen_queries(rng, k, nq):
                     q['series'] = True
                 elif r < 0.5 and len(set(ff)) == len(ff) and n > 0:
                     q['frame'] = True
+            qs.append(q)
+        elif o == 'reuse':
+            # one frequency buffer, two calls of one method, the buffer overwritten in place in between
+            n = rng.randint(1, 6)
+            ff = [pick_freq(rng, k) for _ in range(n)]
+            if k['c'].startswith('point') and rng.random() < 0.8:
+                ff = [rng.choice(fs) for _ in range(n)]
+            q = {'op': o, 'meth': rng.choice(['sens', 'sens', 'sf', 'db', 'gain', 'att']), 'fs': ff, 'L': L, 'A': A,
+                 'vs': [rnd(rng, 1e-6, 10) for _ in ff], 'spl': how['spl']}
+            if rng.random() < 0.5:
+                q.update(how='scale', factor=rng.choice([2.0, 0.5, 1.25]))      # (exact in binary)
+                q['fs2'] = [f * q['factor'] for f in ff]
+            else:
+                q['how'] = 'assign'
+                q['fs2'] = [rng.choice(fs) if (fs and rng.random() < 0.6) else pick_freq(rng, k) for _ in range(n)]
             qs.append(q)
         elif o == 'set_fixed_gain':
             qs.append({'op': o, 'G': rng.choice([0.0, 20.0, -40.0, rnd(rng, -60, 60)]), 'nr': how['nr']})
@@ -911,20 +1026,30 @@ class C07(FloatSpec):
             yield gen_big(rng, kind)
 
     def model_lines(self, c):
-        return [ctor_line(c['ctor'])] + [l for l in (q_line(q) for q in c['queries']) if l is not None]
+        out = [ctor_line(c['ctor'])]
+        for q in c['queries']:
+            l = q_line(q)
+            if isinstance(l, list):
+                out.extend(l)
+            elif l is not None:
+                out.append(l)
+        return out
 
     def impl_results(self, c):
         k = c['ctor']
         try:
             cal = mkcal(k)
         except ValueError:
-            return [err('ValueError')] + [err('NoCalibration')] * len([q for q in c['queries'] if q['op'] != 'twin'])
+            return [err('ValueError')] + [err('NoCalibration')] * (len(self.model_lines(c)) - 1)
         out = [('ok',)]
         for q in c['queries']:
             if q['op'] == 'twin':
                 other = mkcal(twin_of(k))
                 run_query(other, {'op': 'sf', 'f': q['f'], 'L': 60.0, 'A': 0.0})
                 other.set_fixed_gain(-33.0)
+                continue
+            if q['op'] == 'reuse':
+                out.extend(run_reuse(cal, q, k))
                 continue
             r = run_query(cal, q, k)
             if q['op'] == 'sensitivity':
